@@ -639,7 +639,13 @@ func c06Capacity(c *Ctx) {
 	}
 	ix := BuildIndex(c.P)
 	ws := ix.Writers(FieldRef{Type: "bulkhead", Pkg: "bulkhead", Field: actualField("bulkhead", "bulkhead", "semaphore")})
-	if len(ws) != 1 || ws[0] != fn {
+	allIn := len(ws) >= 1
+	for _, w := range ws {
+		if !ix.Within(w, func(f *ssa.Function) bool { return f == fn }) {
+			allIn = false
+		}
+	}
+	if !allIn {
 		var ns []string
 		for _, w := range ws {
 			ns = append(ns, c.fn(w))
@@ -653,8 +659,12 @@ func c06Capacity(c *Ctx) {
 // semaphoreUses classifies every use of a load of bulkhead.semaphore in the program.
 func c06ChannelOwner(c *Ctx) {
 	c.Rule("channel-owner")
-	allowedSend := map[string]bool{"bulkhead.(*bulkhead).AcquirePermit": true, "bulkhead.(*bulkhead).AcquirePermitWithMaxWait": true, "bulkhead.(*bulkhead).TryAcquirePermit": true}
-	allowedRecv := map[string]bool{"bulkhead.(*bulkhead).ReleasePermit": true}
+	ix := BuildIndex(c.P)
+	// the acquire functions and helpers only they reach
+	sendOK := func(fn *ssa.Function) bool {
+		return ix.WithinNames(fn, "bulkhead.(*bulkhead).AcquirePermit", "bulkhead.(*bulkhead).AcquirePermitWithMaxWait", "bulkhead.(*bulkhead).TryAcquirePermit")
+	}
+	recvOK := func(fn *ssa.Function) bool { return ix.WithinNames(fn, "bulkhead.(*bulkhead).ReleasePermit") }
 	n := 0
 	ok := true
 	for _, fn := range c.P.Funcs {
@@ -678,7 +688,7 @@ func c06ChannelOwner(c *Ctx) {
 						name := c.fn(fn)
 						switch x := use.(type) {
 						case *ssa.Send:
-							if !allowedSend[name] {
+							if !sendOK(fn) {
 								ok = false
 								c.Fail(name, c.P.Pos(x.Pos()), "a permit is taken (send on the semaphore) outside the three acquire functions", "")
 							}
@@ -687,17 +697,17 @@ func c06ChannelOwner(c *Ctx) {
 								if s.Chan != u {
 									continue
 								}
-								if s.Dir == types.SendOnly && !allowedSend[name] {
+								if s.Dir == types.SendOnly && !sendOK(fn) {
 									ok = false
 									c.Fail(name, c.P.Pos(x.Pos()), "a permit is taken (send on the semaphore) outside the three acquire functions", "")
 								}
-								if s.Dir == types.RecvOnly && !allowedRecv[name] {
+								if s.Dir == types.RecvOnly && !recvOK(fn) {
 									ok = false
 									c.Fail(name, c.P.Pos(x.Pos()), "a permit is returned (receive from the semaphore) outside ReleasePermit", "")
 								}
 							}
 						case *ssa.UnOp:
-							if !allowedRecv[name] {
+							if !recvOK(fn) {
 								ok = false
 								c.Fail(name, c.P.Pos(x.Pos()), "a permit is returned (receive from the semaphore) outside ReleasePermit", "")
 							}
